@@ -367,6 +367,13 @@ pub fn apply(src: &str, kind: &FaultKind, other: Option<&str>) -> Option<String>
             t.payload[l - 96..].copy_from_slice(&neg);
             Some(t.render())
         }
+        FaultKind::RepeatHeader { n } => {
+            let p = Proto::from_header_prefix(src)?;
+            if *n == 0 {
+                return None;
+            }
+            Some(format!("{}{}{}", p.header(), p.header().repeat(*n as usize), &src[p.header().len()..]))
+        }
         FaultKind::FooterReplaceRaw { hex } => {
             let mut t = Tok::parse(src)?;
             let cur = t.footer.as_ref()?.clone();
